@@ -457,7 +457,12 @@ def _every_path_stores(ck: Checker, prog: Program):
     pf_ = prog.func("processing.prepare_fft_settings")
     sname_ = pf_.params[1]
     lv_ = [l for l in _PT(prog, pf_.module, sum_loops=True).leaves([st for st in pf_.node.body if not (isinstance(st, ast.Expr) and isinstance(st.value, ast.Constant))]) if l.exit != "raise"]
-    silent_ = [l for l in lv_ if not any(e[0] == "store" and e[1].startswith(f"{sname_}.fft_settings") for e in l.events)]
+    # a local name for the settings' dictionary (`d = settings.fft_settings`, bound once): a store through it is a store into the dictionary
+    alias_ = [st.targets[0].id for st in own_nodes(pf_.node) if isinstance(st, ast.Assign) and len(st.targets) == 1 and isinstance(st.targets[0], ast.Name)
+              and unparse(st.value) == f"{sname_}.fft_settings"
+              and sum(1 for x in own_nodes(pf_.node) if isinstance(x, ast.Name) and x.id == st.targets[0].id and isinstance(x.ctx, ast.Store)) == 1]
+    heads_ = tuple([f"{sname_}.fft_settings"] + [f"{a}[" for a in alias_])
+    silent_ = [l for l in lv_ if not any(e[0] == "store" and e[1].startswith(heads_) for e in l.events)]
     if lv_ and not silent_:
         ck.ok("C01.R7", pf_.qualname, "every path stores the FFT length", detail=f"{len(lv_)} path(s)")
     elif silent_:
